@@ -287,7 +287,7 @@ theorem union_step (acc : ITier Int) (hacc : acc.WF)
       intro iv hiv
       have := List.filter_eq_nil_iff.1 hcol iv hiv
       simp [ov] at this; omega
-    obtain ⟨acc', e1, w, n, hm, lo, hi⟩ := C11.insert_nocollision acc hacc e he hes .merge hfree
+    obtain ⟨acc', e1, w, n, hm, lo, hi⟩ := C11.insert_nocollision_stripped acc hacc e he hes .merge hfree
     refine ⟨acc', e1, w, n, lo, hi, ?_, ?_, ?_⟩
     · intro x
       simp only [covers]
@@ -302,7 +302,7 @@ theorem union_step (acc : ITier Int) (hacc : acc.WF)
     · intro y hy; exact ⟨y, (hm y).2 (Or.inl hy), by omega, by omega⟩
     · exact ⟨e, (hm e).2 (Or.inr rfl), by omega, by omega⟩
   · obtain ⟨hMs, hMe, _, acc', e1, w, n, hm, lo, hi⟩ :=
-      C11.insert_merge acc hacc e he hes hcol (C11.merged_label_stripped acc hacc e hes)
+      C11.insert_merge_stripped acc hacc e he hes hcol (C11.merged_label_stripped acc hacc e hes)
     have hMin := hullMin_le ((C11.colliding acc e).map (·.s)) e.s
     have hMax := hullMax_ge ((C11.colliding acc e).map (·.e)) e.e
     have hcolmem : ∀ c ∈ C11.colliding acc e, c ∈ acc.es ∧ c.s < e.e ∧ e.s < c.e := by
